@@ -7,7 +7,7 @@ use serde::ser::{self, Serialize};
 use std::cell::Cell;
 use std::fmt;
 
-#[derive(Clone, Debug, PartialEq, Eq, PartialOrd, Ord)]
+#[derive(Clone, Debug, PartialEq, Eq, PartialOrd, Ord, serde::Serialize, serde::Deserialize)]
 pub enum Value {
 	Unit,
 	Bool(bool),
